@@ -354,7 +354,7 @@ class C11(Prop):
 
     def gen_case(self, rng, cid):
         # now and then a population that crosses the HEART_BEAT_CHUNK boundary (second allocation) inside a random history
-        npop = rng.range(1, 6) if not rng.chance(1, 25) else rng.range(30, 36)
+        npop = rng.range(1, 6) if not rng.chance(1, 25) else rng.range(35, 42)
         ids = {"all": [0, 1], "next": 1}
         body = []
         if rng.chance(1, 5):
